@@ -6,6 +6,18 @@ root = os.path.dirname(os.path.dirname(os.path.abspath(__file__)))
 
 # id -> (technique, level text, level note, design ref)
 CHECKS = {
+ "C01": ("crash/fatal/hang monitor + lexer-progress invariant + hook step counters + error-location bounds oracle over exhaustive short byte strings, corpus mutations, soups and nesting bombs",
+         "Exploration: every input runs through ReadToken-to-EOF, ParseQuery, ParseSchema and the token-limited entry points in isolated worker processes; panics, fatal exits (stack exhaustion), hangs, step-budget overruns (deterministic hook counters, linear budget), nil-document-and-nil-error results and syntax-error locations outside the input are violations. ~190k inputs quick, ~3.7M thorough, bombs to 8 MiB under limits.",
+         "Polynomial time is decided on logical step counts, not wall time; unlimited parsing explored to 64 KiB inputs; token limits to 100 000.",
+         "DESIGN.md §4 C01"),
+ "C03": ("reference-model monitor: independent spec-transcribed lexer compared token by token with lexer.ReadToken; metamorphic ignored-token insertion",
+         "Exploration with exhaustive sub-spaces: all strings up to length 5 (quick) / 6 (thorough) over 19 lexically significant symbols and all block-string bodies up to 7 / 9 over 6 symbols, plus random Unicode token soups; kinds, character extents, semantic values and failure points compared with a reference lexer written from the October 2021 grammar.",
+         "Trusts the reference lexer; abstains on invalid UTF-8, code points above U+FFFF and surrogate \\u escapes. One recorded known finding (block-string close run).",
+         "DESIGN.md §4 C03"),
+ "C04": ("position monitor: independent line index + reference token starts applied to every token, every *ast.Position found by reflection and every error location",
+         "Exploration: documents of both grammars rendered with hostile trivia (multi-line block strings, CR/CRLF/LF CR, BOMs, comments, multi-byte) before every node kind, their single-token mutations (error locations), multi-file schema loads and validation errors; offset range, token-start, line, column, file and anchor text checked for every position the library reports.",
+         "Trusts the line index (15 lines) and the reference lexer; lexical errors are only checked for bounds. One recorded known finding (quoted-string column, pinned by the suite).",
+         "DESIGN.md §4 C04"),
  "C19": ("runtime round-trip monitor: model(parse(x)) vs model(json.Unmarshal(json.Marshal(parse(x)))) over generated documents",
          "Exploration: every generated document is parsed by the real parser, encoded and decoded by the real (un)marshalers and compared with an independent AST→model adapter; 20k (quick) / 500k (thorough) documents with all three selection kinds at every depth and order. Held on what was observed, not a proof.",
          "Trusts encoding/json and the harness's model adapter; positions, comments and validation annotations are outside the property and not compared.",
